@@ -326,12 +326,12 @@ Proof.
   rewrite E0. change tok_asp with asp_bytes. rewrite match_tok_prefix. cbn [negb]. cbv iota beta.
   (* major *)
   pose proof (spec_range 0 UINT_MAX (h_major h) 1 ltac:(i64) Hmaj X3 ln0 (nd_start_stop _ _ (nd_start_num _ _ Hmin))) as Hc1.
-  unfold m_pos. fold X2. destruct (m_range 0 UINT_MAX (amk X2 ln0)) as [v1 s1|]; [|vm_compute in Hc1; discriminate Hc1].
+  unfold m_pos. fold X2. fold X2 in Hc1. destruct (m_range 0 UINT_MAX (amk X2 ln0)) as [v1 s1|]; [|discriminate Hc1].
   destruct Hc1 as (_ & -> & Hr1). destruct s1 as [rs1 ln1]. cbn [rest] in Hr1. subst rs1.
   change (negb (1 =? ASPIF_MAJOR)) with false. cbv iota.
   (* minor *)
   pose proof (spec_range 0 UINT_MAX (h_minor h) 0 ltac:(i64) (num_ok_ws _ _ Hmin) X4 ln1 (nd_start_stop _ _ (nd_start_tok _ Hrev))) as Hc2.
-  fold X3 in Hc2. destruct (m_range 0 UINT_MAX (amk X3 ln1)) as [v2 s2|]; [|vm_compute in Hc2; discriminate Hc2].
+  fold X3 in Hc2. destruct (m_range 0 UINT_MAX (amk X3 ln1)) as [v2 s2|]; [|discriminate Hc2].
   destruct Hc2 as (_ & -> & Hr2). destruct s2 as [rs2 ln2]. cbn [rest] in Hr2. subst rs2.
   change (negb (0 =? ASPIF_MINOR)) with false. cbv iota.
   (* revision *)
@@ -379,13 +379,12 @@ Proof.
   unfold wf_layout, in_range. intros H. apply andb_true_iff in H. destruct H as [H Htr]. apply andb_true_iff in H. destruct H as [Hh Hs].
   unfold read_all, read_with, render.
   pose proof (header_spec (p_hdr a) (flat_map render_step (p_steps a) ++ p_trail a) Hh) as Hhdr.
-  rewrite <- app_assoc in Hhdr |- *.
   destruct (r_id (h_rev (p_hdr a))).
   2:{ destruct Hhdr as (ln & E). rewrite E. cbn [andb]. eexists; eexists; reflexivity. }
   destruct Hhdr as (ln & E). rewrite E. cbn [andb rest].
   destruct (p_steps a) as [|st ss] eqn:Ess.
   - (* no step at all *)
-    cbn [flat_map app forallb andb]. rewrite andb_false_r.
+    cbn [flat_map app forallb andb].
     destruct (match_int_none (p_trail a) [] ln (forallb_ws _ Htr) I) as (ln' & _ & En & El); [intros c r' Hc; discriminate Hc|].
     rewrite app_nil_r in En, El.
     cbn [parse_complete]. unfold parse_round, read_step. cbn [dirs rest]. unfold m_pos, m_range.
